@@ -2483,7 +2483,8 @@ def main(
     if constants_inputs:
         for key, value in constants_inputs.items():
             if "_head_start" in key:
-                df_animal_stock_info.loc[country_code, key.strip("_start")] = value
+                # remove the "_start" suffix (str.strip would strip characters, e.g. "rabbit_head_start" -> "bbit_head")
+                df_animal_stock_info.loc[country_code, key[: -len("_start")]] = value
 
     # read animal nutrition data
     df_animal_attributes = AnimalDataReader.read_animal_nutrition_data(attributes_csv)
